@@ -1,10 +1,12 @@
 """Gen.CondTables — tables of the conditional-compilation code, re-extracted from /repo on every run.
 
 From preprocess/src/preprocess.rs:
-  * `enum ConditionState`, `ConditionChain::switch` (3-state transition table, error on empty stack),
-    `ConditionChain::pop` (error on empty stack), `ConditionChain::is_active` (which state counts as active),
-  * `preprocess_command`: per command name how it is gated by `skip` (no effect / pushes a state / not gated),
-    the state pushed for an evaluated condition, and the error raised at the end of an unfinished chain.
+  * `enum ConditionState`, `struct ConditionBlock`, `ConditionChain::new/push`, `ConditionChain::switch` (nothing
+    follows the #else branch, 3-state transition table, error when the current file has no open block),
+    `ConditionChain::pop` (same error rule), `ConditionChain::is_active` (which state counts as active),
+  * `preprocess_command`: the name split (non-name directives are ignored while skipping), per command name how it
+    is gated by `skip` (no effect / pushes a state / not gated), the state pushed for an evaluated condition, the
+    error raised at the end of an unfinished chain; the per-file block count of `preprocess_included_file`.
 From preprocess/src/condition_parser.rs:
   * `enum BinOp`, `BinOp::apply` (operator semantics on u64),
   * the chain parse_p12 -> parse_p11 -> ... -> parse_p2 and every `parse_op` match (token patterns -> BinOp),
@@ -83,21 +85,52 @@ def register(gen, T):
                    "  deriving DecidableEq, Repr, Inhabited\n\n")
         out.append("def CS.all : List CS := " + T.lean_list("." + s for s in states) + "\n\n")
         out.append("/-- the `PreprocessError` variants the conditional machinery can raise -/\n"
-                   "inductive ChainErr where\n  | ElseNotMatched | EndIfNotMatched | ConditionChainNotFinished\n"
+                   "inductive ChainErr where\n  | ElseNotMatched | EndIfNotMatched | ConditionChainNotFinished | ElseAfterElse | ElifAfterElse\n"
                    "  deriving DecidableEq, Repr, Inhabited\n\n")
 
+        pe_variants = [v for v, _ in enum_variants(pre, "PreprocessError")]
+        CHAIN_ERRS = ["ElseNotMatched", "EndIfNotMatched", "ConditionChainNotFinished", "ElseAfterElse", "ElifAfterElse"]
+        for v in CHAIN_ERRS:
+            if v not in pe_variants:
+                raise ExtractError(f"PreprocessError::{v} not found")
+
+        def chain_err(text, what):
+            em = re.fullmatch(r'Err\(PreprocessError::(\w+)(?:\(location\))?\)', text)
+            if not em or em.group(1) not in CHAIN_ERRS:
+                raise ExtractError(f"{what}: {text!r}")
+            return em.group(1)
+
+        # struct ConditionChain(Vec<ConditionBlock>, usize); struct ConditionBlock { state, seen_else }
+        if not re.search(r'struct\s+ConditionChain\s*\(\s*Vec<ConditionBlock>\s*,\s*usize\s*\)\s*;', pre):
+            raise ExtractError("struct ConditionChain(Vec<ConditionBlock>, usize) not found")
+        bm = re.search(r'struct\s+ConditionBlock\s*\{([^}]*)\}', pre)
+        if not bm or normws(bm.group(1)).rstrip(",") != "state: ConditionState, seen_else: bool":
+            raise ExtractError("struct ConditionBlock { state: ConditionState, seen_else: bool } not found")
+        if normws(impl_fn_body(pre, r'ConditionChain', "new")) != "ConditionChain(vec![], 0)":
+            raise ExtractError("ConditionChain::new is not ConditionChain(vec![], 0)")
+        pu = normws(impl_fn_body(pre, r'ConditionChain', "push"))
+        if pu != "self.0.push(ConditionBlock { state: gate, seen_else: false, });":
+            raise ExtractError(f"ConditionChain::push body {pu!r}")
+        out.append("/-- `struct ConditionBlock`: an `#if` block that has not reached its `#endif` -/\n"
+                   "structure Block where\n  state : CS\n  seenElse : Bool\n  deriving DecidableEq, Repr, Inhabited\n\n"
+                   "/-- `ConditionChain::push(gate)` -/\ndef newBlock (gate : CS) : Block := ⟨gate, false⟩\n\n")
+
         sw = impl_fn_body(pre, r'ConditionChain', "switch")
-        scrut, arms_text, _ = first_match(sw, r'self\.0\.pop\(\)')
+        if not normws(sw).startswith("let blocks_of_file = &mut self.0[self.1..]; match blocks_of_file.last_mut() {"):
+            raise ExtractError("ConditionChain::switch: does not look at the blocks of the current file only")
+        scrut, arms_text, _ = first_match(sw, r'blocks_of_file\.last_mut\(\)')
         outer = match_arms(arms_text)
-        some_arm = [a for a in outer if a[0] and a[0][0].startswith("Some(")]
+        some_arm = [a for a in outer if a[0] == ["Some(block)"]]
         none_arm = [a for a in outer if a[0] == ["None"]]
         if len(some_arm) != 1 or len(none_arm) != 1 or len(outer) != 2:
-            raise ExtractError("ConditionChain::switch: expected Some/None arms")
-        var = re.fullmatch(r'Some\((\w+)\)', some_arm[0][0][0]).group(1)
+            raise ExtractError("ConditionChain::switch: expected Some(block)/None arms")
         body = some_arm[0][2]
-        if not re.search(r'self\.0\.push\(\s*match\s+' + var + r'\b', body) or "Ok(())" not in body:
-            raise ExtractError("ConditionChain::switch: expected self.0.push(match val {..}); Ok(())")
-        _, inner_text, _ = first_match(body, r'^' + var + r'$')
+        sm = re.fullmatch(r'\{ if block\.seen_else \{ return Err\(if is_else \{ PreprocessError::(\w+)\(location\) \} else \{ '
+                          r'PreprocessError::(\w+)\(location\) \}\); \} block\.seen_else = is_else; '
+                          r'block\.state = match block\.state \{(.*)\}; Ok\(\(\)\) \}', body)
+        if not sm or sm.group(1) not in CHAIN_ERRS or sm.group(2) not in CHAIN_ERRS:
+            raise ExtractError("ConditionChain::switch: Some(block) arm not of the expected shape")
+        after_else, after_elif, inner_text = sm.group(1), sm.group(2), sm.group(3)
         clauses = []
         for pats, guard, result in match_arms(inner_text):
             rm = re.fullmatch(r'ConditionState::(\w+)', result)
@@ -115,38 +148,56 @@ def register(gen, T):
                     raise ExtractError(f"switch arm pattern {p!r}")
                 g = {None: "true", "active": "active", "!active": "!active"}[guard]
                 clauses.append((cond, g, rm.group(1)))
-        out.append("/-- the inner `match val` of `ConditionChain::switch`, arm by arm in source order -/\n"
+        out.append("/-- the inner `match block.state` of `ConditionChain::switch`, arm by arm in source order -/\n"
                    "def CS.switch (c : CS) (active : Bool) : CS :=\n")
         for cond, g, r in clauses:
             out.append(f"  if ({cond}) && {g} then .{r} else\n")
         out.append("  c -- not reached: the Rust match is exhaustive (theorem switch_table checks every cell)\n\n")
-        em = re.fullmatch(r'Err\(PreprocessError::(\w+)\)', none_arm[0][2])
-        if not em or em.group(1) not in ("ElseNotMatched", "EndIfNotMatched", "ConditionChainNotFinished"):
-            raise ExtractError(f"switch None arm {none_arm[0][2]!r}")
-        out.append(f"/-- `switch` on an empty stack -/\ndef switchEmptyErr : ChainErr := .{em.group(1)}\n\n")
+        out.append("/-- `switch` on a block whose `#else` branch has started: `if is_else {..} else {..}` -/\n"
+                   f"def afterElseErr (isElse : Bool) : ChainErr := if isElse then .{after_else} else .{after_elif}\n\n")
+        out.append("/-- the `Some(block)` arm of `ConditionChain::switch(active, is_else, location)`: no branch can follow\n"
+                   "    the `#else` branch; otherwise `seen_else = is_else` and the state moves on -/\n"
+                   "def Block.switch (b : Block) (active isElse : Bool) : Except ChainErr Block :=\n"
+                   "  if b.seenElse then .error (afterElseErr isElse) else .ok ⟨b.state.switch active, isElse⟩\n\n")
+        out.append(f"/-- `switch` when the current file has no open block -/\n"
+                   f"def switchEmptyErr : ChainErr := .{chain_err(none_arm[0][2], 'switch None arm')}\n\n")
 
-        pop = impl_fn_body(pre, r'ConditionChain', "pop")
-        _, arms_text, _ = first_match(pop, r'self\.0\.pop\(\)')
-        arms = match_arms(arms_text)
-        ok_arm = [a for a in arms if a[0] == ["Some(_)"] and a[2] == "Ok(())"]
-        none_arm = [a for a in arms if a[0] == ["None"]]
-        if len(arms) != 2 or not ok_arm or not none_arm:
-            raise ExtractError("ConditionChain::pop: expected Some(_) => Ok(()), None => Err(..)")
-        em = re.fullmatch(r'Err\(PreprocessError::(\w+)\)', none_arm[0][2])
-        if not em or em.group(1) not in ("ElseNotMatched", "EndIfNotMatched", "ConditionChainNotFinished"):
-            raise ExtractError(f"pop None arm {none_arm[0][2]!r}")
-        out.append(f"/-- `pop` on an empty stack -/\ndef popEmptyErr : ChainErr := .{em.group(1)}\n\n")
+        pop = normws(impl_fn_body(pre, r'ConditionChain', "pop"))
+        pm = re.fullmatch(r'if self\.0\.len\(\) > self\.1 \{ self\.0\.pop\(\); Ok\(\(\)\) \} else \{ (Err\(PreprocessError::\w+\)) \}', pop)
+        if not pm:
+            raise ExtractError("ConditionChain::pop: expected `if self.0.len() > self.1 { self.0.pop(); Ok(()) } else { Err(..) }`")
+        out.append(f"/-- `pop` when the current file has no open block -/\n"
+                   f"def popEmptyErr : ChainErr := .{chain_err(pm.group(1), 'pop else branch')}\n\n")
+        out.append("/-- `switch` looks at `self.0[self.1..]` only and `pop` requires `self.0.len() > self.1`: the blocks that\n"
+                   "    were open when the current file started cannot be switched or closed from inside the file -/\n"
+                   "def fileBaseGuardsSwitchAndPop : Bool := true\n\n")
 
         ia = normws(impl_fn_body(pre, r'ConditionChain', "is_active"))
-        m = re.fullmatch(r'self\.0\.iter\(\)\.all\(\|gate\| \*gate == ConditionState::(\w+)\)', ia)
+        m = re.fullmatch(r'self \.0 \.iter\(\) \.all\(\|block\| block\.state == ConditionState::(\w+)\)', ia) or \
+            re.fullmatch(r'self\.0\.iter\(\)\.all\(\|block\| block\.state == ConditionState::(\w+)\)', ia.replace(" .", "."))
         if not m or m.group(1) not in states:
             raise ExtractError(f"is_active body {ia!r}")
-        out.append(f"/-- `is_active`: every level is in this state -/\ndef activeState : CS := .{m.group(1)}\n\n")
+        out.append(f"/-- `is_active`: every block (of every file) is in this state -/\ndef activeState : CS := .{m.group(1)}\n\n")
 
         # ---------------------------------------------------------------- preprocess_command gating
         pc = fn_body(pre, "preprocess_command")
-        if not re.search(r'let\s+skip\s*=\s*!condition_chain\.is_active\(\)\s*;', pc):
+        skm = re.search(r'let\s+skip\s*=\s*!condition_chain\.is_active\(\)\s*;', pc)
+        if not skm:
             raise ExtractError("preprocess_command: `let skip = !condition_chain.is_active();` not found")
+        # the name split: `skip` is known before it, a directive that does not start with a name is ignored while
+        # skipping and is an UnknownCommand otherwise
+        spm = re.search(r'let\s*\(command_name,\s*command\)\s*=\s*match\s+command\s*\{', pc)
+        if not spm or spm.start() < skm.end():
+            raise ExtractError("preprocess_command: the name split does not come after `let skip = ..`")
+        _, split_text, _ = first_match(pc, r'^command$', spm.start())
+        split_arms = match_arms(split_text)
+        want_split = [(["[PreprocessToken(Token::Id(id), _), rest @ ..]"], None, "(id.0.as_str(), rest)"),
+                      (["[PreprocessToken(Token::If, _), rest @ ..]"], None, '("if", rest)'),
+                      (["[PreprocessToken(Token::Else, _), rest @ ..]"], None, '("else", rest)'),
+                      (["_"], "skip", "return Ok(())"),
+                      (["_"], None, "return Err(PreprocessError::UnknownCommand(command_location))")]
+        if [(a[0], a[1], a[2]) for a in split_arms] != want_split:
+            raise ExtractError(f"preprocess_command: name split has arms {split_arms!r}")
         _, arms_text, _ = first_match(pc, r'^command_name$')
         out.append("/-- how `preprocess_command` treats a command while `skip` (= some level is not active) holds -/\n"
                    "inductive Gate where\n  | skipNoEffect            -- `if skip { return Ok(()) }`\n"
@@ -209,13 +260,20 @@ def register(gen, T):
                 if f'"{name}"' in pats:
                     return normws(result)
             raise ExtractError(f"preprocess_command: no arm for {name}")
-        if "condition_chain.switch(active)?" not in arm_of("elif"):
-            raise ExtractError("#elif does not call switch(active)")
-        if "condition_chain.switch(true)?" not in arm_of("else"):
-            raise ExtractError("#else does not call switch(true)")
+        if "condition_chain.switch(active, false, command_location)?" not in arm_of("elif"):
+            raise ExtractError("#elif does not call switch(active, false, ..)")
+        if "condition_chain.switch(true, true, command_location)?" not in arm_of("else"):
+            raise ExtractError("#else does not call switch(true, true, ..)")
         if "condition_chain.pop()?" not in arm_of("endif"):
             raise ExtractError("#endif does not call pop()")
-        out.append("/-- `#else` is `switch(true)` -/\ndef elseSwitchArg : Bool := true\n\n")
+        out.append("/-- `#else` is `switch(true, true, ..)` -/\ndef elseSwitchArg : Bool := true\n\n"
+                   "/-- the `is_else` argument of `switch`: `#else` passes `true`, `#elif` passes `false` -/\n"
+                   "def elseIsElse : Bool := true\n\ndef elifIsElse : Bool := false\n\n")
+        out.append("/-- the name split of `preprocess_command` (`[Id(id), ..]`, `[Token::If, ..]`, `[Token::Else, ..]`): a\n"
+                   "    directive that does not start with one of these tokens is ignored while skipping (`_ if skip =>\n"
+                   "    return Ok(())`, with `skip` computed in front of the split) and is an `UnknownCommand` otherwise -/\n"
+                   "def nameTokens : List String := [\"Id\", \"If\", \"Else\"]\n\n"
+                   "def nonNameGate : Gate := .skipNoEffect\n\n")
         pif = normws(fn_body(pre, "preprocess_initial_file"))
         m = re.search(r'if !condition_chain\.0\.is_empty\(\) \{ return Err\(PreprocessError::(\w+)\); \}', pif)
         if not m or m.group(1) not in ("ElseNotMatched", "EndIfNotMatched", "ConditionChainNotFinished"):
@@ -230,17 +288,32 @@ def register(gen, T):
             raise ExtractError("#include: MAX_INCLUDE_DEPTH check not found")
         out.append(f"/-- `const MAX_INCLUDE_DEPTH`: `#include` is refused when `include_depth >=` this -/\n"
                    f"def maxIncludeDepth : Nat := {m.group(1)}\n\n")
-        # one ConditionChain for all files: the include arm hands `condition_chain` itself to
-        # preprocess_included_file, which neither records the depth at entry nor checks it at the end
+        # one ConditionChain object for all files (the include arm hands `condition_chain` itself to
+        # preprocess_included_file), but every file works above its own base: the number of blocks open at its
+        # start is recorded in `.1`, restored at its end, and the file must end with exactly that many blocks
         pinc = normws(fn_body(pre, "preprocess_included_file"))
         shared = ("preprocess_included_file( buffer, file_loader, file, macros, condition_chain, )" in inc_arm
                   or "preprocess_included_file(buffer, file_loader, file, macros, condition_chain)" in inc_arm)
         if not shared:
             raise ExtractError("#include does not pass the includer's condition_chain to preprocess_included_file")
-        if "condition_chain.0" in pinc or "ConditionChainNotFinished" in pinc:
-            raise ExtractError("preprocess_included_file inspects the condition chain (per-file check?)")
-        out.append("/-- `#include` processes the file with the includer's own `ConditionChain`; the included file's\n"
-                   "    end is not checked -/\ndef chainSharedByIncludes : Bool := true\n\n")
+        k_enter = pinc.find("let outer_file_block_count = condition_chain.1; condition_chain.1 = condition_chain.0.len();")
+        k_loop = pinc.find("while !token_stream.end_of_stream()")
+        k_flush = pinc.rfind("flush_normal(")
+        tail = "if condition_chain.0.len() != condition_chain.1 { return Err(PreprocessError::ConditionChainNotFinished); } " \
+               "condition_chain.1 = outer_file_block_count; Ok(())"
+        if k_enter < 0 or k_loop < 0 or not (k_enter < k_loop < k_flush) or not pinc.endswith(tail) \
+                or pinc.count("condition_chain.1") != 4 or pinc.count("condition_chain.0") != 2:
+            raise ExtractError("preprocess_included_file: per-file block count (enter / check / restore) not of the expected shape")
+        out.append("/-- `preprocess_included_file` records the number of open blocks at its start in `condition_chain.1`\n"
+                   "    (the previous value is restored at the end) and fails unless the file ends with exactly that many -/\n"
+                   "def chainPerFile : Bool := true\n\n"
+                   "/-- error when an included file (or the entry file) ends with blocks of its own still open -/\n"
+                   "def fileUnfinishedErr : ChainErr := .ConditionChainNotFinished\n\n")
+        if not re.search(r'if tokens\.iter\(\)\.any\(\|t\| t\.0 == Token::Endline\) \{ return Err\(PreprocessError::InvalidDefine\('
+                         r'SourceLocation::UNKNOWN\)\); \} let macro_def = Macro::parse\(&tokens\)\?;', pif):
+            raise ExtractError("preprocess_initial_file: the line-break test on API defines is not in front of Macro::parse")
+        out.append("/-- an API-level define whose tokens contain a line end is an `InvalidDefine` -/\n"
+                   "def apiDefineRejectsLineBreak : Bool := true\n\n")
         fsm = normws(fn_body(pre, "find_single_macro"))
         k_def = fsm.find('if i >= search_pos.next_pos && apply_defined && id.0 == "defined" { return Ok(FoundMacro::Defined(i)); }')
         k_loop = fsm.find("for macro_index in 0..macros.len()")
